@@ -1,5 +1,6 @@
 """python -m harness.replay_cli <behaviours.json.gz>: replay in this interpreter (its PYTHONHASHSEED is the caller's
-choice), print one JSON line {divs, n, steps, digest}; digest covers every byte every endpoint emitted, in order."""
+choice), print one JSON line {divs, n, steps, digest, digest_masked}; digest covers every byte every endpoint emitted, the text of every
+exception and the repr of every event, in order."""
 import gzip
 import hashlib
 import json
@@ -13,6 +14,7 @@ def main():
         c = json.load(fh)
     cat = replay.load_catalogue()
     total = hashlib.sha256()
+    masked = hashlib.sha256()
     divs = []
     steps = 0
     orig = driver.Session
@@ -22,6 +24,8 @@ def main():
             super().__init__(meta)
             sessions.append(self)
     sessions = []
+    per = []
+    mask_per = len(sys.argv) > 2 and sys.argv[2] == 'masked'
     driver.Session = S
     for i, t in enumerate(c['traces']):
         del sessions[:]
@@ -30,9 +34,14 @@ def main():
         if r is not None:
             r['behaviour'] = i
             divs.append(r)
+        one = hashlib.sha256()
+        for s in sessions:
+            one.update(s.digest_masked.digest() if mask_per else s.digest.digest())
+        per.append(one.hexdigest()[:16])
         for s in sessions:
             total.update(s.digest.digest())
-    print(json.dumps({'divs': divs, 'n': len(c['traces']), 'steps': steps, 'digest': total.hexdigest()}))
+            masked.update(s.digest_masked.digest())
+    print(json.dumps({'divs': divs, 'n': len(c['traces']), 'steps': steps, 'digest': total.hexdigest(), 'digest_masked': masked.hexdigest(), 'per': per}))
 
 
 if __name__ == '__main__':
